@@ -132,7 +132,18 @@ class HdrGen:
                 out.append(('x-seq', str(self.counter)))
         return out
 
+    limit = None      # the peer's MAX_HEADER_LIST_SIZE as received (set by the generator before each call)
+
     def _finish(self, hl, as_bytes):
+        if self.limit is not None:
+            # a sane application keeps within the limit the peer announced
+            def size(l):
+                return sum(len(h[0]) + len(h[1]) + 32 for h in l) + 64
+            while size(hl) > self.limit:
+                big = max(range(len(hl)), key=lambda i: len(hl[i][1]))
+                if hl[big][0].startswith(':'):
+                    break
+                del hl[big]
         out = []
         for h in hl:
             n, v = h[0], h[1]
@@ -266,11 +277,13 @@ class Gen:
                 ec['header_encoding'] = 'utf-8'
             if rng.random() < P['config_matrix']:
                 for k in ('validate_outbound', 'normalize_outbound', 'validate_inbound', 'normalize_inbound'):
+                    if k.endswith('outbound') and not P.get('matrix_outbound', True):
+                        continue
                     ec[k] = rng.random() < 0.5
             cfg[ep] = ec
         if rng.random() < P['small_closed']:
             cfg['knobs']['MAX_CLOSED_STREAMS'] = rng.choice([1, 2, 4, 64])
-        cfg['knobs']['CONTINUATION_BACKLOG'] = rng.choice([64, 64, 8, 2])
+        cfg['knobs']['CONTINUATION_BACKLOG'] = rng.choice([64, 64, 8, 2]) if P.get('small_backlog', True) else 64
         self.upgrade = rng.random() < P['upgrade']
         cfg['upgrade'] = self.upgrade
         self.burst = rng.random() < P['burst']
@@ -308,7 +321,10 @@ class Gen:
         self.unacked = {'c': [], 's': []}
         self.stalled = {'c2s': 0, 's2c': 0}
         self.ping_ctr = 0
-        self.table_block_seen = {'c': True, 's': True}   # peer sent a header block since own HEADER_TABLE_SIZE change
+        # HEADER_TABLE_SIZE guard (hpack 4.2 dependency defect, DESIGN section 8): 'clean' -> change allowed;
+        # 'wait_ack' after a change; 'wait_block' once that change was acknowledged; back to 'clean' when a header
+        # block arrives after the ACK (it was then encoded after the peer applied the change)
+        self.table_state = {'c': 'clean', 's': 'clean'}
         self.halted = False
         self.cl_left = {}          # (ep, sid) -> body bytes still owed under a declared content-length
         self.adv_dir = None
@@ -336,9 +352,15 @@ class Gen:
                 if e['t'] == 'DataReceived' and e['flow_controlled_length']:
                     self.unacked[s.ep].append([e['stream_id'], e['flow_controlled_length']])
         if s.kind == 'recv':
-            for f in s.units:
-                if f.type in (C.HEADERS, C.PUSH_PROMISE):
-                    self.table_block_seen[s.ep] = True
+            for ev in s.events or ():
+                if ev['t'] == 'SettingsAcknowledged' and C.S_HEADER_TABLE_SIZE in ev['changed_settings'] \
+                        and self.table_state[s.ep] == 'wait_ack':
+                    self.table_state[s.ep] = 'wait_block'
+                elif ev['t'] in ('RequestReceived', 'ResponseReceived', 'TrailersReceived', 'PushedStreamReceived',
+                                 'InformationalResponseReceived') and self.table_state[s.ep] == 'wait_block':
+                    self.table_state[s.ep] = 'clean'
+        if s.kind == 'call' and s.op == 'update_settings' and s.ok and C.S_HEADER_TABLE_SIZE in s.args['settings']:
+            self.table_state[s.ep] = 'wait_ack'
 
     def call(self, ep, op, **a):
         s = self.ex({'ev': 'call', 'ep': ep, 'op': op, 'a': a})
@@ -456,6 +478,9 @@ class Gen:
         fn(ep, e, trk, live)
 
     def _max_frame(self, trk):
+        # (also the moment to tell the header generator the peer's list-size limit)
+        for ep in ('c', 's'):
+            self.hg[ep].limit = self.w.eps[ep].trk.peer.get(C.S_MAX_HEADER_LIST_SIZE)
         return trk.peer[C.S_MAX_FRAME_SIZE]
 
     def _op_open(self, ep, e, trk, live):
@@ -487,7 +512,7 @@ class Gen:
         elif rng.random() < 0.05:
             kw['pd'] = rng.choice([0, 1, 5])
         s = self.call(ep, 'send_headers', sid=sid, headers=hs, es=es, **kw)
-        if s is not None and s.ok and body_len:
+        if s is not None and s.ok and body_len is not None:
             self.cl_left[(ep, sid)] = body_len
 
     def _op_respond(self, ep, e, trk, live):
@@ -514,7 +539,7 @@ class Gen:
         hs = self.hg[ep].response(max_frame=self._max_frame(trk), status=status, body_len=body_len)
         s = self.call(ep, 'send_headers', sid=st.sid, headers=hs, es=es)
         if s is not None and s.ok:
-            if body_len:
+            if body_len is not None:
                 self.cl_left[(ep, st.sid)] = body_len
             if head or status is not None:
                 self.nohead.add((ep, st.sid))
@@ -540,7 +565,7 @@ class Gen:
         if not cands:
             return
         st = rng.choice(cands)
-        if (ep, st.sid) in self.nohead:
+        if (ep, st.sid) in self.nohead or self._no_body(trk, st):
             return self._op_end(ep, e, trk, live, st)
         room = min(trk.conn_send, st.send_win, self._max_frame(trk))
         pad = None
@@ -571,6 +596,13 @@ class Gen:
         s = self.call(ep, 'send_data', sid=st.sid, data=data, es=es, pad=pad)
         if s is not None and s.ok and owed is not None:
             self.cl_left[(ep, st.sid)] = owed - size
+
+    @staticmethod
+    def _no_body(trk, st):
+        """Responses defined to have no content (to HEAD, 204, 304)."""
+        if trk.client and st.mine and not st.pushed:
+            return False
+        return st.req_method == b'HEAD' or st.resp_status in (b'204', b'304')
 
     def _op_end(self, ep, e, trk, live, st=None):
         rng = self.rng
@@ -632,7 +664,7 @@ class Gen:
             k = rng.choice(keys)
             if k == C.S_ENABLE_PUSH and ep == 's':
                 continue
-            if k == C.S_HEADER_TABLE_SIZE and not self.table_block_seen[ep]:
+            if k == C.S_HEADER_TABLE_SIZE and self.table_state[ep] != 'clean':
                 continue    # hpack 4.2 dependency defect (see DESIGN 8): stale intermediate size update
             vals = SETTING_VALUES[k]
             if k == C.S_INITIAL_WINDOW_SIZE and self.P['windows'] == 'small':
@@ -640,8 +672,6 @@ class Gen:
             elif k == C.S_INITIAL_WINDOW_SIZE and self.P['windows'] == 'normal' and rng.random() < 0.7:
                 vals = [1024, 65535, 2 ** 20]
             d[k] = rng.choice(vals)
-        if C.S_HEADER_TABLE_SIZE in d:
-            self.table_block_seen[ep] = False
         return d
 
     def _op_settings(self, ep, e, trk, live):
@@ -760,6 +790,9 @@ class Gen:
         sid = self._sid_pool(trk)
         st = trk.get(sid)
         k = rng.randrange(22)
+        if st is not None and k in (1, 2, 12, 20) and ((ep, sid) in self.cl_left or (ep, sid) in self.nohead
+                                                        or self._no_body(trk, st)):
+            return      # body-carrying misuse would make the *application* break HTTP semantics (C16's business)
         # FSM-refused misuse poisons the stream/connection FSM (known finding
         # F-POISON): only generated in the confirmation share of runs.
         fsm_ok = self.fsm_misuse
@@ -894,6 +927,9 @@ class Gen:
                 return
             hs = [(b':method', b'GET'), (b':scheme', b'https'), (b':authority', b'a'), (b':path', b'/')]
             target = mf - rng.choice([0, 1, 2, 3, 4, 5, 6, 8])
+            lim = trk.peer.get(C.S_MAX_HEADER_LIST_SIZE)
+            if lim is not None and target // 2 + 400 > lim:
+                return
             # literal-without-huffman estimate: value of random lowercase compresses ~ 5/8; use never-matching bytes
             hs.append((b'x-fill', bytes(rng.choice(b'!#$%&*+^`|~') for _ in range(max(1, target // 2)))))
             self.call(ep, 'send_headers', sid=nsid, headers=hs, pw=rng.choice([1, 16]), es=True)
